@@ -7,6 +7,7 @@ import Goyang.Props.C07
 import Goyang.Props.C04
 import Goyang.Props.C02
 import Goyang.Lemmas.AugPosLoad
+import Goyang.Lemmas.AugmentKU
 /-
 C07, bridge to `processAll` — the hypotheses `PhaseInput` and `NoDupNames` of Props/C07.lean are
 discharged for the state with which `processAll` really enters the augment phase.
@@ -29,9 +30,9 @@ that what is left are decidable predicates on the registry and on the statements
 * `ModsAreModules reg`    — every loaded statement is a `module` / `submodule` statement (only needed
   for "EVERY module has its tree"; the hypotheses of C07 need the trees of the modules with augments);
   proved, together with `LoadedShape`, of every registry `Model.loadTexts` (= `Modules.Parse` per text)
-  produces (`loadTexts_registry_shape`).  `AugPosDistinct` is NOT derived from the parser model (C16's
-  `TruePos` gives each statement its position, not that sibling statements have different ones); that
-  it cannot simply be dropped is `augPosDistinct_needed` below.
+  produces (`loadTexts_registry_shape`).  `AugPosDistinct` IS derived for registries loaded from
+  C02-admissible texts (`augPosDistinct_of_loadTexts`, section "`AugPosDistinct` derived"); that it
+  cannot simply be dropped for arbitrary registry values is `augPosDistinct_needed` below.
 
 `NoDupNames` (C07) and `KeysUnique` (C04) are the same condition on `Dir` (pairwise different
 sibling names at every node, `keysUnique_iff`); neither asks that names be non-empty, so no side
@@ -39,8 +40,10 @@ condition on the input is needed for them.  `merge` keeps `NoDupNames` unconditi
 (`noDupNames_merge`: a child whose name is taken is refused), and so does the whole augment stage
 given it for the children of the pending entries (`augment_stage_keeps_noDupNames`).  For the trees
 `toEntry` builds it is C04's conditional invariant: a tree (or pending augment entry) in which no
-error is recorded has it — unconditionally false only for the reason C04 documents (two error entries
-with the empty name below one node when the fuel runs out).
+error is recorded has it (C04's traversal cannot exclude two error entries with the empty name below
+one node, which only the out-of-fuel branch produces; `phaseStart_keysUnique` below excludes them with
+C01's fuel bound and gives `KeysUnique` — hence `NoDupNames` — of every tree and pending entry,
+errors or not).
 
 The error list (C07 (d′)).  The well-formedness the error-list theorems need — one tree per id,
 `KeysUnique` of every tree, `KeysUnique` of the pending augment entries without recorded errors — is
@@ -55,13 +58,23 @@ dropped"): `augPosDistinct_needed` exhibits a registry of the loaded shape with 
 statement value twice, for which `NodupPending` fails at phase start; the `..` example shows that for
 a non-plain argument Go's `Find` (`walkParts`) and the analysed loop / the reference semantics
 (`walkN`, `walk`) disagree (replayed on the Go code: `augment "/a:c/a:d/.."` is applied to `c`).
-Not proved: `AugPosDistinct` for registries loaded from TEXTS (true — two statements of one text start
-at different offsets — but not derived from the parser model: it needs "sibling keyword offsets
-increase" for `Spec.Parse.stmts`, injectivity of offset ↦ (line, col), and the transport through
-`encForest`, the AST builder and `Registry.add`; the refinement of the byte-level parser is proved for
-C02-admissible texts only).  The error-list equality for runs WITH pending entries that carry errors
-of their own needs `KeysUnique` of those entries, which C04's invariant gives only for error-free
-entries.
+
+`AugPosDistinct` for registries loaded from TEXTS (2026-09-29): proved for texts that are UTF-8
+encodings of Unicode texts without the four constructs C02 excludes (`AdmissibleTexts`) —
+`offset_position_injective` (offset ↦ (line, col) is injective inside one text),
+`token_offsets_increase`, `sibling_positions_distinct` (reference reader: sibling statements, at the
+top level and below every statement, stand at pairwise different (line, col)),
+`augPosDistinct_of_loadTexts` (transport through the refinement of the byte-level parser, `toStmt?` and
+`Registry.add`).  Every `_processAll` theorem is restated as `_loadTexts` for such registries, with
+`AugArgsPlain` as the only input hypothesis left.  NOT proved: the same for texts outside C02's claim
+(ill-formed UTF-8, a comment opener inside an unquoted token, the three excluded double-quoted-string
+shapes): the byte-level lexer model is related to the reference reader for admissible texts only, and
+no direct proof that the lexer model's token positions increase has been made.
+
+The error set with pending entries that carry errors of their own (2026-09-29): `phaseStart_keysUnique`
+(every tree and every pending augment entry has unique keys, errors or not: C04's traversal repeated
+with C01's fuel bound, `Lemmas/AugmentKU.lean`) and `augment_error_set_order_independent_processAll`
+(/`_loadTexts`): `augment_error_list_order_independent_processAll` without its hypothesis `hbodies`.
 -/
 namespace Goyang.Props.C07Bridge
 open Goyang.Model Goyang.Spec.Augment Goyang.Spec.Tree
@@ -425,6 +438,61 @@ theorem augment_error_list_order_independent_processAll (reg : Registry) (opts :
   exact C07.augment_loop_confluent_errors_observed (Res.ofReg reg) fuel fuel2 order.toArray mods2 s s2 hforest hpend
     hin.nodup hn2 hcov hcov2 hfuel hfuel2 hids hku hb hfree
 
+/-! ### the error list when pending augment entries carry errors of their own
+
+C04's invariant gives `KeysUnique` of a converted entry only when no error is recorded in it: its
+traversal cannot exclude two error entries with the empty name below one node, which arise in the
+out-of-fuel branch of `toEntry` only.  C01's fuel bound shows that branch is never reached for the
+calls `processAll` makes, so the traversal can be repeated with that branch answering an entry named
+after its statement (`Lemmas/AugmentKU.lean`): every tree and every pending augment entry has unique
+keys, errors or not.  Hence the hypothesis `hbodies` of
+`augment_error_list_order_independent_processAll` can be dropped. -/
+
+/-- Every tree and every pending augment entry (so each of its children) the conversion hands to the
+augment phase has unique keys at every node — whether or not errors are recorded in it; no hypothesis
+on the registry. -/
+theorem phaseStart_keysUnique (reg : Registry) (opts : Opts) (plug : Plug) (s : PState)
+    (order : List Nat) (h : phaseStart reg opts plug = some (s, order)) :
+    (∀ t ∈ s.forest.trees, KeysUnique t.2) ∧
+    (∀ id, ∀ a ∈ s.pendingOf id, KeysUnique a ∧ ∀ c ∈ a.dir, KeysUnique c) := by
+  obtain ⟨rfl, _⟩ := phaseStart_eq reg opts plug s order h
+  exact ⟨Lemmas.AugmentKU.keysUnique_pstate0_all reg opts plug,
+    fun id => Lemmas.AugmentKU.keysUnique_pending_all reg opts plug id⟩
+
+/-- **(d′) for `processAll`, pending entries with errors of their own included: the error set does
+not depend on the order.**  When `processAll`'s run of the loop leaves no `duplicate-node` error,
+every other run from the same forest over the same pending sets ends with the same set of recorded
+errors — the same canonical error list — and without `duplicate-node` error.  (The errors recorded
+inside an augment entry — an unknown type, a bad `config` value, a duplicate key in its body … — enter
+the forest when the entry is applied; they are the same in every order.) -/
+theorem augment_error_set_order_independent_processAll (reg : Registry) (opts : Opts) (plug : Plug)
+    (hL : LoadedShape reg) (hpos : AugPosDistinct reg) (hplain : AugArgsPlain reg) (s : PState) (order : List Nat)
+    (h : phaseStart reg opts plug = some (s, order))
+    (fuel2 : Nat) (mods2 : Array Nat) (s2 : PState)
+    (hforest : s2.forest = s.forest) (hpend : ∀ id a, a ∈ s2.pendingOf id ↔ a ∈ s.pendingOf id)
+    (hn2 : NodupPending s2) (hcov2 : Cover s2 mods2) (hfuel2 : mu s2 < fuel2) :
+    let fuel := s.pending.foldl (fun n p => n + p.2.length) 0 + 2
+    (∀ er ∈ allErrs (augmentLoop reg fuel order.toArray s).2.forest, er.cls ≠ "duplicate-node") →
+    (∀ er, er ∈ allErrs (augmentLoop reg fuel2 mods2 s2).2.forest ↔
+      er ∈ allErrs (augmentLoop reg fuel order.toArray s).2.forest) ∧
+    canonErrs (allErrs (augmentLoop reg fuel2 mods2 s2).2.forest) =
+      canonErrs (allErrs (augmentLoop reg fuel order.toArray s).2.forest) ∧
+    (∀ er ∈ allErrs (augmentLoop reg fuel2 mods2 s2).2.forest, er.cls ≠ "duplicate-node") := by
+  intro fuel hfree
+  have hin := phaseInput_holds reg opts plug hL hpos hplain s order h
+  have hp2 : PlainPending reg s2 := fun id a ha => hin.plain id a ((hpend id a).1 ha)
+  have hids := one_tree_per_module reg opts plug hL s order h
+  obtain ⟨hku, hbody⟩ := phaseStart_keysUnique reg opts plug s order h
+  have hcov := phaseStart_cover reg opts plug s order h
+  have hfuel := C07.model_fuel_sufficient s hin.keys
+  rw [C07.model_loop_eq reg fuel order.toArray s hin.plain] at hfree ⊢
+  rw [C07.model_loop_eq reg fuel2 mods2 s2 hp2]
+  have hbook := (loop_run (Res.ofReg reg) fuel order.toArray s hin.nodup hcov hfuel).2.1
+  have hb : ∀ ev ∈ loopTrace (Res.ofReg reg) fuel order.toArray s, ∀ c ∈ ev.aug.dir, KeysUnique c :=
+    fun ev hev => (hbody ev.owner ev.aug (hbook.fromPending ev hev)).2
+  exact C07.augment_loop_confluent_errors_observed (Res.ofReg reg) fuel fuel2 order.toArray mods2 s s2 hforest hpend
+    hin.nodup hn2 hcov hcov2 hfuel hfuel2 hids hku hb hfree
+
 /-! ### `AugPosDistinct` derived: registries loaded from texts
 
 `Model.loadTexts` is `Modules.Parse` per text (generic parser, AST builder, top-level check,
@@ -580,6 +648,24 @@ theorem augment_error_list_order_independent_loadTexts (texts : List (List UInt8
   augment_error_list_order_independent_processAll _ opts plug (loadedShape_loadTexts texts)
     (augPosDistinct_of_loadTexts texts hadm) hplain s order h fuel2 mods2 s2 hforest hpend hn2 hcov2 hfuel2 hbodies
 
+/-- `augment_error_set_order_independent_processAll` ((d′), pending entries with errors of their own
+included) for registries loaded from admissible texts. -/
+theorem augment_error_set_order_independent_loadTexts (texts : List (List UInt8 × List UInt8))
+    (hadm : AdmissibleTexts texts) (opts : Opts) (plug : Plug) (hplain : AugArgsPlain (loaded texts))
+    (s : PState) (order : List Nat) (h : phaseStart (loaded texts) opts plug = some (s, order))
+    (fuel2 : Nat) (mods2 : Array Nat) (s2 : PState)
+    (hforest : s2.forest = s.forest) (hpend : ∀ id a, a ∈ s2.pendingOf id ↔ a ∈ s.pendingOf id)
+    (hn2 : NodupPending s2) (hcov2 : Cover s2 mods2) (hfuel2 : mu s2 < fuel2) :
+    let fuel := s.pending.foldl (fun n p => n + p.2.length) 0 + 2
+    (∀ er ∈ allErrs (augmentLoop (loaded texts) fuel order.toArray s).2.forest, er.cls ≠ "duplicate-node") →
+    (∀ er, er ∈ allErrs (augmentLoop (loaded texts) fuel2 mods2 s2).2.forest ↔
+      er ∈ allErrs (augmentLoop (loaded texts) fuel order.toArray s).2.forest) ∧
+    canonErrs (allErrs (augmentLoop (loaded texts) fuel2 mods2 s2).2.forest) =
+      canonErrs (allErrs (augmentLoop (loaded texts) fuel order.toArray s).2.forest) ∧
+    (∀ er ∈ allErrs (augmentLoop (loaded texts) fuel2 mods2 s2).2.forest, er.cls ≠ "duplicate-node") :=
+  augment_error_set_order_independent_processAll _ opts plug (loadedShape_loadTexts texts)
+    (augPosDistinct_of_loadTexts texts hadm) hplain s order h fuel2 mods2 s2 hforest hpend hn2 hcov2 hfuel2
+
 /-! ### non-vacuity: the input predicates hold of a concrete two-module set with an augment -/
 section Examples
 open Goyang.Props.C04.Ex
@@ -635,10 +721,8 @@ theorem pend3_twice : pend3.length = 2 ∧ pend3.head?.toList ++ pend3.head?.toL
 /-- **`AugPosDistinct` cannot be dropped** from `pending_no_entry_twice` (hence from `PhaseInput`):
 for this registry of the loaded shape, with plain augment arguments, `processAll` enters the augment
 phase with the same entry listed twice for module `b` — `NodupPending`, on which exactly-once and the
-trace bookkeeping rest, is false.  (For registries loaded from texts the predicate is true — two
-statements of one text start at different offsets — but it is not derived from the parser model here:
-C16's `TruePos` gives each statement its own position, the comparison of siblings' positions is not
-part of it, and the refinement of the byte-level parser is proved for C02-admissible texts only.) -/
+trace bookkeeping rest, is false.  (For registries loaded from C02-admissible texts the predicate is a
+theorem: `augPosDistinct_of_loadTexts`.) -/
 theorem augPosDistinct_needed : ∃ reg : Registry, LoadedShape reg ∧ AugArgsPlain reg ∧ ¬ AugPosDistinct reg ∧
     ∃ s order, phaseStart reg {} plug = some (s, order) ∧ ¬ NodupPending s := by
   refine ⟨reg3, by decide +kernel, ?_, by decide +kernel, ?_⟩
@@ -678,6 +762,31 @@ entry carries an error of its own) holds of the two-module example -/
 example : ((phaseStart reg2 {} plug).map fun x => x.1.pending.all fun p => p.2.all fun a => a.allErrors.isEmpty) =
     some true := by decide +kernel
 
+/-! ### a pending augment entry with an error of its own -/
+
+/-- module `b` whose augment body has a bad `config` value -/
+def modB4 : Stmt :=
+  st 1 "module" "b" [
+    st 2 "namespace" "urn:b", st 3 "prefix" "b",
+    st 4 "import" "a" [st 5 "prefix" "a"],
+    st 6 "augment" "/a:c" [st 7 "leaf" "w" [st 8 "type" "string", st 9 "config" "maybe"]]]
+def reg4 : Registry := (Registry.loadAll [modA, modB4]).1
+
+/-- the hypotheses of `augment_error_set_order_independent_processAll` hold of it … -/
+example : LoadedShape reg4 ∧ AugPosDistinct reg4 := by decide +kernel
+example : AugArgsPlain reg4 := by
+  intro m hm s hs
+  have hall : ∀ m ∈ reg4.mods, ∀ s ∈ m.stmt.all "augment", s.arg = "/a:c" := by decide +kernel
+  rw [hall m hm s hs]
+  exact plainAbsArg_example
+
+/-- … `processAll` enters the augment phase on it, and the pending entry of `b` carries an error (the
+case `augment_error_list_order_independent_processAll` excludes); its keys are unique, as
+`phaseStart_keysUnique` says (here evaluated by the kernel) -/
+example : ((phaseStart reg4 {} plug).map fun x =>
+      (x.1.pending.map fun p => (p.1, p.2.map fun a => (a.allErrors.length, decide (KeysUnique a))))) =
+    some [(0, []), (1, [(1, true)])] := by decide +kernel
+
 /-! ### a registry loaded from a text: the hypotheses of the `_loadTexts` theorems hold -/
 
 /-- `module b{namespace u;prefix b;container c{}augment /b:c{leaf w{type string;}}` ⏎ ⇥
@@ -701,9 +810,9 @@ example : AdmissibleTexts textsB := by
   exact ⟨textB, rfl, by decide⟩
 
 set_option maxRecDepth 100000 in
-/-- the reference reader accepts it (hypothesis of `sibling_positions_distinct`), with 18 + 17 + 1 tokens
+/-- the reference reader accepts it (hypothesis of `sibling_positions_distinct`), with 36 tokens
 (hypothesis of `token_offsets_increase`) -/
-example : (Spec.Parse.parse textB).isSome = true ∧ ((Spec.Parse.tokenize textB).map List.length) = some 44 :=
+example : (Spec.Parse.parse textB).isSome = true ∧ ((Spec.Parse.tokenize textB).map List.length) = some 36 :=
   ⟨by decide, by decide⟩
 
 set_option maxRecDepth 100000 in
